@@ -117,6 +117,9 @@ class MemMixin:
                 return fs[fi]
             if isinstance(v, VClosure):
                 return v.upvars[fi]
+            if isinstance(v, VDigest) and fi == 0:
+                # md5::Digest(pub [u8; 16]): the same opaque, provenance-carrying octets that Deref hands out
+                return VArr(16, None, v.did, ("digest", v.did))
             if isinstance(v, VRef) and fi == 0:
                 # Box<T>.0 / Unique / NonNull wrappers: stay on the pointer
                 return v
@@ -150,6 +153,21 @@ class MemMixin:
                 self.elem_syms = {}
             self.elem_syms[nm] = (v.name, idx if isinstance(idx, Lin) else Lin.const(idx), ("vec", v.name))
             return self.named_int(ety if ety is not None else self.u8_ty(), nm)
+        if isinstance(v, VArr) and v.src is not None and v.src[0] == "be" and isinstance(v.src[1], VInt) and v.src[2] \
+                and (isinstance(idx, int) or (isinstance(idx, Lin) and idx.is_const())):
+            # octet i of x.to_be_bytes(): the base-256 digit of x
+            i = idx if isinstance(idx, int) else idx.c
+            n = v.src[2]
+            lo, _hi = self.bounds(st, v.src[1].lin)
+            if 0 <= i < n and lo is not None and lo >= 0:
+                q = v.src[1].lin
+                for _ in range(n - 1 - i):
+                    q, _r = self.divmod_const(st, q, 256)
+                _lo, hi = self.bounds(st, q)
+                if hi is not None and hi <= 255:
+                    return VInt(self.u8_ty(), q)
+                _q, r = self.divmod_const(st, q, 256)
+                return VInt(self.u8_ty(), r)
         if isinstance(v, VArr) and v.name and idx is not None:
             # deterministic, provenance-carrying element of an opaque array (e.g. an MD5 digest)
             nm = "%s[%r]" % (v.name, idx)
@@ -305,6 +323,8 @@ class MemMixin:
         """type id of a MIR place (best effort)"""
         ty = frame.body["locals"][place["l"]]
         for e in place["p"]:
+            if ty is None:
+                return None
             t = self.fx.types[ty]
             if e == "deref":
                 if t["k"] in ("ref", "ptr"):
